@@ -4,7 +4,6 @@ import (
 	"fmt"
 	"math"
 	"math/big"
-	"reflect"
 	"strings"
 
 	"github.com/db47h/decimal"
@@ -358,7 +357,7 @@ func (o *oracleC19) after(c *stepCtx) *ViolationRec {
 			// after the NaN was recorded. Both outcomes are legal; synchronise
 			// the model with the context (read-only peek at the latch).
 			o.cnt["foreign_panic_during_nan_recovery"]++
-			if f := reflect.ValueOf(c.w.Ctx).Elem().FieldByName("err"); f.IsValid() && f.Kind() == reflect.Interface && !f.IsNil() {
+			if ctxLatched(c.w.Ctx) {
 				o.err = o.expMsg
 			}
 		}
